@@ -121,6 +121,31 @@ def bounds_programs(first_id):
             mapv = (lambda f: "move |r: Result<_, u8>| r.map(%s)" % f) if tr else (lambda f: f)
             tup = (lambda *xs: "Ok((%s))" % ", ".join(xs)) if tr else (lambda *xs: "(%s)" % ", ".join(xs))
             T.append((kind, "", "%s |> %s ~|> %s, %s |> %s" % (rdy("Tok::new()"), mapv("|t: Tok| t"), mapv("|t: Tok| { drop(t); 1u32 }"), rdy("Tok::new()"), mapv("|t: Tok| { drop(t); 2u32 }")), "__r", tup("1", "2"), "move_only_all_macros"))
+    # ---- the same freedoms in wide invocations (5, 8, 12 branches): whatever an expansion does differently for many
+    # branches, the non-spawning macros still may not ask for Send / 'static / Clone
+    for kind in ("join", "try_join", "join_async", "try_join_async"):
+        tr = kind.startswith("try_")
+        asy = "async" in kind
+        for n in (5, 8, 12):
+            rest = n - 3
+            if not asy:
+                wrap = (lambda e: "Some(%s)" % e)
+                fmap = (lambda f: f)
+                exp_items = ["2", "1", "1"] + [str(10 + i) for i in range(rest)]
+                exp = ("Some((%s))" % ", ".join(exp_items)) if tr else ("(%s)" % ", ".join("Some(%s)" % x for x in exp_items))
+                prel = "let rc = std::rc::Rc::new(std::cell::Cell::new(1u32)); let mut acc = 0u32; let a = &mut acc;"
+            else:
+                wrap = (lambda e: "futures::future::ok::<_, u8>(%s)" % e) if tr else (lambda e: "futures::future::ready(%s)" % e)
+                fmap = (lambda f: "move |r: Result<_, u8>| r.map(%s)" % f) if tr else (lambda f: f)
+                exp_items = ["2", "1", "1"] + [str(10 + i) for i in range(rest)]
+                exp = ("Ok((%s))" % ", ".join(exp_items)) if tr else ("(%s)" % ", ".join(exp_items))
+                prel = "let rc = std::rc::Rc::new(std::cell::Cell::new(1u32)); let rc2 = rc.clone(); let mut acc = 0u32; let a = &mut acc;"
+            rcv = "rc2" if asy else "rc.clone()"
+            brs = ["%s |> %s" % (wrap(rcv), fmap("|r: std::rc::Rc<std::cell::Cell<u32>>| { r.set(r.get() + 1); r.get() }")),
+                   "%s |> %s" % (wrap("a"), fmap("|a: &mut u32| { *a += 5; 1u32 }")),
+                   "%s |> %s ~|> %s" % (wrap("Tok::new()"), fmap("|t: Tok| t"), fmap("|t: Tok| { drop(t); 1u32 }"))]
+            brs += [wrap("%du32" % (10 + i)) for i in range(rest)]
+            T.append((kind, prel, ", ".join(brs), "(__r, rc.get(), acc)", "(%s, 2, 5)" % exp, "wide%d_not_send_mut_borrow_move_only" % n))
     T += caller_stack_matrix()
     fns, entries = [], []
     for i, (kind, prelude, body, result, expected, tag) in enumerate(T):
